@@ -2,6 +2,7 @@ package rig
 
 import (
 	"fmt"
+	"strings"
 	"time"
 
 	"verif/harness/proto"
@@ -276,4 +277,74 @@ func (st *Stop) String() string {
 
 		return st.Kind + ":" + d
 	}
+}
+
+// Parse asks the child to parse an inputrc text and waits for the outcome.
+func (c *Child) Parse(ps *proto.ParseSpec) *Stop {
+	c.nextID++
+	tag := c.nextID
+
+	if err := c.sendOp(&proto.Op{Op: "parse", Parse: ps, Tag: tag}); err != nil {
+		return &Stop{Kind: "died", Detail: err.Error()}
+	}
+
+	timer := time.NewTimer(c.Timeout)
+	defer timer.Stop()
+
+	for {
+		select {
+		case data, ok := <-c.masterCh:
+			if !ok {
+				c.masterCh = nil
+				continue
+			}
+
+			c.Emu.Feed(data)
+		case ev, ok := <-c.evCh:
+			if !ok {
+				c.dead = true
+
+				select {
+				case <-c.waitCh:
+				case <-time.After(3 * time.Second):
+				}
+
+				time.Sleep(20 * time.Millisecond)
+
+				out := c.CrashOutput()
+				c.closeAll()
+
+				return &Stop{Kind: "died", Detail: out}
+			}
+
+			if ev.Tag != tag {
+				continue
+			}
+
+			switch ev.Ev {
+			case "parsed":
+				return &Stop{Kind: "parsed", Ev: ev}
+			case "panic":
+				return &Stop{Kind: "panic", Ev: ev}
+			}
+		case <-timer.C:
+			dump := c.goroutineDump()
+			return &Stop{Kind: "hang", Detail: classifyParseHang(dump) + "\n" + dump}
+		}
+	}
+}
+
+func classifyParseHang(dump string) string {
+	for _, b := range strings.Split(dump, "\n\n") {
+		if strings.Contains(b, "main.runParse") {
+			first := strings.SplitN(b, "\n", 2)[0]
+			if strings.Contains(first, "running") || strings.Contains(first, "runnable") {
+				return "spin: " + first + "\n" + b + "\n----"
+			}
+
+			return "blocked: " + first + "\n" + b + "\n----"
+		}
+	}
+
+	return "unknown"
 }
